@@ -189,7 +189,7 @@ def compare(world: Dict[str, Any], ref: Dict[str, Any], other: Dict[str, Any],
 
 
 def signature(world: Dict[str, Any], idx: Dict[int, Any], attr: str, ident: str, a: Any, b: Any,
-              partial: str) -> str:
+              partial: str, times_moved: Optional[Dict[str, int]] = None) -> str:
     """Name the invariant and the shape of the failing case (root-cause class)."""
     from sim.oracles import _direct
     truth = world['truth']
@@ -222,6 +222,13 @@ def signature(world: Dict[str, Any], idx: Dict[int, Any], attr: str, ident: str,
         modname, scope, st = idx[int(ident[1:])]
         tags.append('what=' + st['k'])
         tags.append('self=' + moved_tag(st['id']))
+        if attr == 'location' and times_moved:
+            # how often the object (or the top-level object it sits in) was actually moved in one run: an object that
+            # two modules re-export is moved twice, and where it ends up then depends on which one came last
+            top = f'M{scope[0]}' if scope else ident
+            n = max(times_moved.get(top, 0), times_moved.get(ident, 0))
+            if n >= 2:
+                tags.append(f'times-moved={min(n, 3)}')
         if attr == 'kind':
             tags.append(f'{a}->{b}' if str(a) < str(b) else f'{b}->{a}')
             if st['k'] == 'class':
@@ -396,6 +403,7 @@ def run_world(world: Dict[str, Any], scheds: Sequence[Sequence[str]]) -> Dict[st
     star_stmts = {(mn, st['mod']) for mn, m in world['modules'].items() for _, st in W.iter_stmts(m['body'])
                   if st['k'] == 'from' and st['names'] == '*'}
     ref = None
+    ref_moves: Dict[str, int] = {}
     ref_sched: Optional[Sequence[str]] = None
     violations: Dict[str, Dict[str, Any]] = {}
     inter: Set[str] = set()
@@ -441,11 +449,16 @@ def run_world(world: Dict[str, Any], scheds: Sequence[Sequence[str]]) -> Dict[st
         finals.add(dd)
         h.update(iid.encode())
         h.update(dd.encode())
+        tm: Dict[str, int] = {}
+        for e in system.sim_log:
+            if e[0] == 'reparent':
+                tm[e[1]] = tm.get(e[1], 0) + 1
         if ref is None:
-            ref, ref_sched, ref_partial = d, sc, partial
+            ref, ref_sched, ref_partial, ref_moves = d, sc, partial, tm
             continue
+        both = {k: max(tm.get(k, 0), ref_moves.get(k, 0)) for k in set(tm) | set(ref_moves)}
         for attr, ident, a, b in compare(world, ref, d, cyclic):
-            sig = signature(world, idx, attr, ident, a, b, _merge_partial(partial, ref_partial))
+            sig = signature(world, idx, attr, ident, a, b, _merge_partial(partial, ref_partial), both)
             if sig not in violations:
                 violations[sig] = {
                     'signature': sig,
